@@ -39,6 +39,15 @@ def run(F, R):
     # (nothing of the previous occupant survives): the filling function folded over old contents (shared with C01.F1)
     from .C01 import share_fn_rule
     share_fn_rule(F, R, 'O7')
+    # O8: a submission is admitted only when the descriptors (and ring slot) it will write are free: otherwise it
+    # overwrites descriptors / the ring slot of entries the device has not consumed yet, i.e. entries below the
+    # published index are no longer completely written by their own submission (capacity table shared with C03.E3)
+    from .C03 import e3_capacity
+    from . import C05 as _c5b
+    _r = _c5b.classify_api(_c5b.queue_api(F, M))
+    for _k, _v in _r.items():
+        if _v == 'add':
+            e3_capacity(F, R, M, _k, rule='O8', rule1='O8')
     eps = queue_entry_points(F, M)
     R.count('entry_points', len(eps))
     idx_writer_fns = []
